@@ -22,7 +22,7 @@ from mc.props.c09 import arrays
 
 LEVEL = "model_checking"
 RULE = (
-    "Explicit-state exploration over call histories: ALL sequences up to depth 2 (quick) / 3 (thorough) over the operation alphabet {run A, run A with programs, run B, build A's model then deep-copy and process, "
+    "Explicit-state exploration over call histories: ALL sequences up to depth 2 (quick) / 3 (thorough) over the operation alphabet {run A, run A with programs, run B, run A twice from a parameter set that carries a saved state, build A's model then deep-copy and process, "
     "build then pickle round-trip and process, deep-copy a result, save+load a result, parameter scenario on A, sampled run with zero uncertainty, one-iteration optimisation of A, calibration of B with maxiters=1} on two different generated projects "
     "(no state deduplication: hidden global state is exactly what is being looked for). Invariants after EVERY operation: (i) its outputs are bit-identical to the outputs of the same operation from the initial state, "
     "(ii) the full structural snapshot of every input object (parameter sets, program set, instructions, frameworks, data, settings of both projects) is unchanged, (iii) copy / pickle / save-load variants equal the original. "
@@ -35,7 +35,7 @@ ASSUMPTIONS = [
 ]
 CASE_TIMEOUT = 900
 
-OPS = ["runA", "runAp", "runB", "copyA", "pickleA", "dcp_result", "saveload", "scenA", "sampled0", "optimA", "calibB"]
+OPS = ["runA", "runAp", "runB", "runA_init", "copyA", "pickleA", "dcp_result", "saveload", "scenA", "sampled0", "optimA", "calibB"]
 
 
 class Ctx:
@@ -46,7 +46,14 @@ class Ctx:
                 p["sigma"] = 0.0
         # output-only parameters whose functions depend on time / constants only (no model quantity)
         a["pars"] += [dict(name="tt", fmt=None, fn="0.01*(t-2000)"), dict(name="kk", fmt=None, fn="0.5*dt"), dict(name="uu", fmt=None, fn="tt+sus/100")]
+        # a program whose coverage denominator sums four compartments (2 populations x 2 compartments)
+        a["progs"]["progs"].append(dict(name="P3", pops=["pa1", "pb1"], comps=["sus", "vac"], spend=250.0, uc=15.0, oneoff=True))
+        a["progs"]["covouts"][1]["progs"]["P3"] = 0.7
         self.A = World(a)
+        # a parameter set carrying an explicit initialisation (saved state of a previous run)
+        r = self.A.P.run_sim(self.A.parset, store_results=False)
+        self.A_init = sc.dcp(self.A.parset)
+        self.A_init.set_initialization(r, float(r.model.t[4]))
         self.B = World(c06.model("agg", 0.25, "three", 0.5, 1.5, "none", False, None))
 
     def inputs(self):
@@ -58,6 +65,7 @@ class Ctx:
             out[nm + ".framework"] = w.F
             out[nm + ".data"] = w.D
             out[nm + ".settings"] = w.P.settings
+        out["A.parset_with_initialization"] = self.A_init
         return out
 
 
@@ -78,6 +86,10 @@ def dig(x):
     return h.hexdigest()[:16]
 
 
+def A_init_year(ctx):
+    return ctx.A_init.initialization.year
+
+
 def apply_op(ctx, op):
     """returns {label: digest} of everything the operation produced"""
     A, B = ctx.A, ctx.B
@@ -86,6 +98,14 @@ def apply_op(ctx, op):
         out["A"] = dig(A.P.run_sim(A.parset, store_results=False))
     elif op == "runAp":
         out["Ap"] = dig(A.P.run_sim(A.parset, A.progset, A.instr, store_results=False))
+    elif op == "runA_init":
+        s0 = A.P.settings.sim_start
+        A.P.settings.update_time_vector(start=float(A_init_year(ctx)))
+        try:
+            out["A_init"] = dig(A.P.run_sim(ctx.A_init, store_results=False))
+            out["A_init#again"] = dig(A.P.run_sim(ctx.A_init, A.progset, A.instr, store_results=False))
+        finally:
+            A.P.settings.update_time_vector(start=s0)
     elif op == "runB":
         out["B"] = dig(B.P.run_sim(B.parset, store_results=False))
     elif op in ("copyA", "pickleA"):
@@ -186,7 +206,7 @@ import sys, json
 sys.path.insert(0, %r)
 from mc.props import c08
 ctx = c08.Ctx()
-print("DIGESTS " + json.dumps({op: c08.apply_op(c08.Ctx(), op) for op in ("runA", "runAp", "runB", "scenA", "copyA")}))
+print("DIGESTS " + json.dumps({op: c08.apply_op(c08.Ctx(), op) for op in ("runA", "runAp", "runB", "scenA", "copyA", "runA_init")}))
 """
 
 
